@@ -25,11 +25,11 @@ func c11(c *Check) {
 	c.Rule("C11/ibc-conversion-all-or-nothing", "the automatic conversion of the ICS-20 hook (anchored in ibc_hook.go) runs on a cache context that is flushed only when ConvertCoin succeeded, so a conversion failing after its escrow step leaves the received vouchers untouched (shared with C16)", 4)
 	hookCacheRule(c, "C11/ibc-conversion-all-or-nothing", Macros{
 		"CC":    "cosmos-sdk/types.(Context).CacheContext($1)",
-		"DATA":  "cell<cosmos-sdk/codec.(*ProtoCodec).UnmarshalJSON(g:transfer/types.ModuleCdc, 04-channel/types.(Packet).GetData($2), _)>",
+		"DATA":  "cell<cosmos-sdk/codec.(*ProtoCodec).UnmarshalJSON(g:transfer/types.ModuleCdc, $2.Data, _)>",
 		"AMT":   "cosmos-sdk/types.NewIntFromString({DATA}.Amount)",
 		"RCV":   "cosmos-sdk/types.AccAddressFromBech32({DATA}.Receiver)#0",
-		"DENOM": "aggregate/types.IBCDenom(04-channel/types.(Packet).GetDestPort($2), 04-channel/types.(Packet).GetDestChannel($2), {DATA}.Denom)",
-		"MSG":   "aggregate/types.NewMsgConvertCoin(cosmos-sdk/types.NewCoin({DENOM}#0, {AMT}#0), go-ethereum/common.BytesToAddress(cosmos-sdk/types.(AccAddress).Bytes({RCV})), {RCV})",
+		"DENOM": "aggregate/types.IBCDenom($2.DestinationPort, $2.DestinationChannel, {DATA}.Denom)",
+		"MSG":   "aggregate/types.NewMsgConvertCoin(cosmos-sdk/types.NewCoin({DENOM}#0, {AMT}#0), go-ethereum/common.BytesToAddress({RCV}), {RCV})",
 		"CONV":  "aggregate/keeper.(Keeper).ConvertCoin($0, cosmos-sdk/types.WrapSDKContext({CC}#0), {MSG})",
 	})
 
